@@ -205,7 +205,7 @@ fn gen_item_any(t: &mut Tape, allow_known: &Known) -> String {
                 items.push(it.src);
             }
             match t.weighted(&[8, 1, 1]) {
-                0 => format!("{} mod m {{ {} }}", gen::gen_vis(t), items.join("\n")),
+                0 => format!("{} mod {} {{ {} }}", gen::gen_vis(t), *t.pick(&["m", "m", "r#match", "r#type", "r#plain", "Mod9"]), items.join("\n")),
                 1 => "mod m;".to_string(),
                 _ => format!("mod m {{ #![allow(unused)] {} }}", items.join("\n")),
             }
